@@ -49,6 +49,53 @@ def _kv(argstr):
     return out
 
 
+def _altsplit(body, a, contract):
+    """R22. By the definitions of the two combinators (verified separately as functions):
+         from_control_flow(|| { to_control_flow::<_, E>(|| B1)?; ..; to_control_flow(|| Bn)?; ControlFlow::Continue(D) })
+       evaluates B1; if it is Ok(t) the result is Ok(t); otherwise B2; ..; otherwise Err(D).
+       It is unfolded into
+         { match (|VAR: TY| -> (alt: RET) CONTRACT B1)(VAR) { Ok(t_) => return Ok(t_), Err(_e) => {} } .. Err(D) }
+       (valid where the idiom is the tail expression of the enclosing function or closure): the
+       alternatives take the cursor as a parameter instead of capturing it mutably."""
+    m = re.search(r'from_control_flow\s*\(\s*\|\|\s*\{', body)
+    if not m:
+        return body, 0
+    toks = lex(body)
+    k_open = next(i for i, t in enumerate(toks) if t[2] == m.end() - 1)          # the `{`
+    k_close = match_close(toks, k_open)                                          # its `}`
+    # the `)` closing from_control_flow(
+    k_par = k_close + 1
+    while toks[k_par][0] in ('ws', 'lcomment', 'bcomment'):
+        k_par += 1
+    if toks[k_par][1] != ')':
+        raise AnchorLost('from_control_flow(|| {..}) is not closed by `)`')
+    inner = body[toks[k_open][3]:toks[k_close][2]]
+    n = 0
+    out = ''
+    pos = 0
+    for mm in re.finditer(r'to_control_flow(?:\s*::\s*<[^<>()]*>)?\s*\(\s*\|\|\s*\{', inner):
+        if mm.start() < pos:
+            continue
+        itoks = lex(inner)
+        ko = next(i for i, t in enumerate(itoks) if t[2] == mm.end() - 1)
+        kc = match_close(itoks, ko)
+        block = inner[itoks[ko][2]:itoks[kc][3]]
+        rest = inner[itoks[kc][3]:]
+        mt = re.match(r'\s*\)\s*\?\s*;', rest)
+        if not mt:
+            raise AnchorLost('to_control_flow(|| {..}) is not followed by `)?;`')
+        out += inner[pos:mm.start()]
+        out += 'match (|%s: %s| -> (alt: %s)\n%s\n%s)(%s) { Ok(t_) => return Ok(t_), Err(_e) => {} }' % (a['var'], a['ty'], a['ret'], contract, block, a['var'])
+        pos = itoks[kc][3] + mt.end()
+        n += 1
+    out += inner[pos:]
+    out2, k = re.subn(r'ControlFlow::Continue\(', 'Err(', out)
+    if k != 1:
+        raise AnchorLost('expected exactly one final ControlFlow::Continue(..) in the idiom, found %d' % k)
+    body = body[:m.start()] + '{' + out2 + '}' + body[toks[k_par][3]:]
+    return body, n
+
+
 def _return_arrow(header):
     """match object of the `->` that introduces the fn's return type: the first arrow outside
     all parentheses and angle brackets after the parameter list (arrows of Fn bounds inside the
@@ -323,6 +370,10 @@ def render(template_text, flags=(), canary=False):
                     sections.append(cur)
                 elif t.startswith('//@loop '):
                     cur = ('loop', {'n': int(t[8:].split()[0])}, [])
+                    sections.append(cur)
+                elif t.startswith('//@altsplit '):
+                    kv = _kv(t[len('//@altsplit '):])
+                    cur = ('altsplit', {'var': kv.get('var', 'tokens'), 'ty': kv['ty'], 'ret': kv['ret']}, [])
                     sections.append(cur)
                 elif t.startswith('//@closure '):
                     rest = t[len('//@closure '):]
@@ -685,13 +736,20 @@ def _render_fn(g, args, rws, subs, hsubs, sections):
             header = header[:m.end()] + '(' + args['ret'] + ': ' + ty.strip() + ') ' + tail
         else:
             raise AnchorLost('fn %s has no return type to name' % fname)
+    # ---- R22: the `from_control_flow(|| { to_control_flow(|| ALT)?; ..; ControlFlow::Continue(D) })` idiom ----
+    for (kind, a, ls) in sections:
+        if kind == 'altsplit':
+            body, n = _altsplit(body, a, '\n'.join(ls))
+            g.rewrites.append({'fn': fname, 'rule': 'R22 try-alternatives idiom unfolded (to_control_flow / from_control_flow by their definitions; each alternative closure takes the cursor as a parameter instead of capturing it)', 'n': n})
+            if n == 0:
+                raise AnchorLost('no from_control_flow(|| {..}) idiom in %s' % fname)
     # ---- splices into the body (process from the back so offsets stay valid) ----
     inserts = []  # (offset, text)
     replaces = []  # (start, end, text)
     loops = None
     for (kind, a, ls) in sections:
         txt = '\n'.join(ls) + '\n'
-        if kind == 'contract':
+        if kind in ('contract', 'altsplit'):
             continue
         if kind == 'loop':
             if loops is None:
